@@ -227,6 +227,33 @@ fn fault_cases(f: &mut Findings) {
     }
 }
 
+/// C10 at a boundary of float equality: +0.0 and -0.0 compare equal but are different parameter vectors (1/tau differs in sign);
+/// NaN never compares equal. The state after such an update must still be that of a fresh problem at the same parameters.
+fn signed_zero_cases(f: &mut Findings) {
+    let n = 8usize;
+    let mk = || {
+        let mo = SeparableModelBuilder::<f64>::new(["t0", "t1"])
+            .function(["t0"], |x: &DVector<f64>, tau: f64| x.map(|x| (-x / tau).exp())).partial_deriv("t0", |x: &DVector<f64>, tau: f64| x.map(|x| (-x / tau).exp() * x / (tau * tau)))
+            .function(["t1"], |x: &DVector<f64>, tau: f64| x.map(|x| (-x / tau).exp())).partial_deriv("t1", |x: &DVector<f64>, tau: f64| x.map(|x| (-x / tau).exp() * x / (tau * tau)))
+            .independent_variable(xs(n)).initial_parameters(vec![1.5, 3.5]).build().unwrap();
+        LevMarProblemBuilder::new(mo).observations(data(n)).build().unwrap()
+    };
+    for (first, second) in [(vec![0.0, 3.0], vec![-0.0, 3.0]), (vec![-0.0, 3.0], vec![0.0, 3.0]), (vec![2.0, 0.0], vec![2.0, -0.0]), (vec![2.0, 3.0], vec![2.0, 3.0])] {
+        let mut hist = mk();
+        hist.set_params(&DVector::from_vec(first.clone()));
+        hist.set_params(&DVector::from_vec(second.clone()));
+        let mut fresh = mk();
+        fresh.set_params(&DVector::from_vec(second.clone()));
+        // bitwise comparison (a NaN derivative at tau = 0 is the same NaN in both)
+        let bits = |v: Option<Vec<f64>>| v.map(|v| v.iter().map(|x| x.to_bits()).collect::<Vec<u64>>());
+        let same = bits(hist.residuals().map(|r| r.as_slice().to_vec())) == bits(fresh.residuals().map(|r| r.as_slice().to_vec()))
+            && bits(hist.jacobian().map(|r| r.as_slice().to_vec())) == bits(fresh.jacobian().map(|r| r.as_slice().to_vec()))
+            && bits(hist.linear_coefficients().map(|c| c.as_slice().to_vec())) == bits(fresh.linear_coefficients().map(|c| c.as_slice().to_vec()))
+            && bits(Some(hist.params().as_slice().to_vec())) == bits(Some(fresh.params().as_slice().to_vec()));
+        if !same { f.report("C10", "the state after two updates differs from a fresh problem at the same parameters (signed zero)", format!("after {:?} then {:?}: residuals {} vs fresh {}", first, second, if hist.residuals().is_some() { "Some" } else { "None" }, if fresh.residuals().is_some() { "Some" } else { "None" })); }
+    }
+}
+
 /// C18: the problem builder accepts exactly consistent inputs, names the violated requirement, starts at the model's parameters
 fn builder_cases(f: &mut Findings) {
     // the error type is not nameable from outside the crate: it is judged by the variant name of its Debug form
@@ -416,6 +443,7 @@ fn algebra_sweep() {
         }
     }
     fit_cases(&mut f);
+    signed_zero_cases(&mut f);
     fault_cases(&mut f);
     builder_cases(&mut f);
     f.finish("the algebra sweep (18 configurations, rank-deficient and thresholded cases, best_fit, fits under two budgets, failing models, the problem-builder matrix) agrees with the independent oracle");
